@@ -15,7 +15,7 @@ Init == /\ kind \in {"lookup", "sdepth"} /\ col = <<>> /\ zneg = 0 /\ cs = <<0 -
 GrowCol == /\ kind = "lookup" /\ Len(col) < MAXN
            /\ \E z \in (0 - ZMAX)..(0 - 1) : (IF col = <<>> THEN TRUE ELSE z > col[Len(col)]) /\ col' = Append(col, z)
            /\ UNCHANGED <<kind, zneg, cs, h, hc, vt>>
-Probe == /\ kind = "lookup" /\ Len(col) >= 2
+Probe == /\ kind = "lookup" /\ Len(col) >= 1
          /\ \E z \in (0 - ZMAX - 3)..3 : zneg' = z
          /\ UNCHANGED <<kind, col, cs, h, hc, vt>>
 GrowC == /\ kind = "sdepth" /\ cs[Len(cs)] < 0 /\ Len(cs) < 2 * MAXN + 1
@@ -24,7 +24,7 @@ GrowC == /\ kind = "sdepth" /\ cs[Len(cs)] < 0 /\ Len(cs) < 2 * MAXN + 1
 Next == GrowCol \/ Probe \/ GrowC
 Spec == Init /\ [][Next]_vars
 
-LookupLaw == (kind = "lookup" /\ Len(col) >= 2) => LookupOK(col, zneg)
+LookupLaw == (kind = "lookup" /\ Len(col) >= 1) => LookupOK(col, zneg)
 
 \* complete stretching function: 2N+1 staggered values -CD = c_0 < c_1 < ... < c_2N = 0 ; w-level k at index 2k, rho-level k at 2k-1
 Complete == kind = "sdepth" /\ Len(cs) >= 3 /\ Len(cs) % 2 = 1 /\ cs[Len(cs)] = 0
